@@ -32,6 +32,10 @@
 // `//`, empty multi-line annotation `/**/`, empty `#` comment, empty block comment, each followed by LF / CRLF
 // runs and foreign text.
 //
+// Second schema stream (delim.go): accepted schemas whose strings — rule values inside inline and multi-line
+// annotations, notes, example strings, keys — are built from the byte sequences that delimit the other constructs of
+// the notation; same demand.
+//
 // Malformed starts: a proper prefix of S that contains the first byte of the root value but not its last
 // (cut inside a string, inside an object / array, after a ':', inside an annotation of an unclosed root)
 // must make Len return an error. Texts with no value at all (empty, blanks, only user comments): nothing
@@ -1012,27 +1016,27 @@ func (x *runner) interleaved(r *rand.Rand, n int) {
 }
 
 func Run(args []string) {
-	rep := vh.NewReport(command, "accepted texts S (generated schemas in random spellings incl. annotations, user comments, shortcuts; generated JSON documents with random layout; enum rules with // and /* */ comments; regex types /P/) x separators (none, spaces, tabs, LF/CRLF runs, mixes) x trailing texts T (directive lines and random strings over a directive-like alphabet) filtered by the side condition 'T cannot continue S'; demanded Len(S+sep+T)=len(S), prefix passes Check with the same AST / event list / Values / Pattern; malformed starts (proper prefix cut after the first and before the last byte of the root value: random cut, after ':', inside a string) must give an error; texts without any value (empty, blanks, only comments) are evaluated and counted, nothing is demanded about them; every text is also measured on one object after a short random history of loading calls and must give what a fresh object gives; schema texts also with leading layout and with content-less annotations / comments at the end followed by LF / CRLF runs and foreign text. nontrivial = T is not empty (triples) / the prefix is not empty (malformed)")
+	rep := vh.NewReport(command, "accepted texts S (generated schemas in random spellings incl. annotations, user comments, shortcuts; generated JSON documents with random layout; enum rules with // and /* */ comments; regex types /P/) x separators (none, spaces, tabs, LF/CRLF runs, mixes) x trailing texts T (directive lines and random strings over a directive-like alphabet) filtered by the side condition 'T cannot continue S'; demanded Len(S+sep+T)=len(S), prefix passes Check with the same AST / event list / Values / Pattern; malformed starts (proper prefix cut after the first and before the last byte of the root value: random cut, after ':', inside a string) must give an error; texts without any value (empty, blanks, only comments) are evaluated and counted, nothing is demanded about them; every text is also measured on one object after a short random history of loading calls and must give what a fresh object gives; schema texts also with leading layout and with content-less annotations / comments at the end followed by LF / CRLF runs and foreign text; a second schema stream whose strings (regex / const / enum / or / type rule values of inline and multi-line annotations, notes, example strings, keys; on root scalars, properties, items, containers) are built from the delimiters of the notation (*/ /* // # ### escaped quote and backslash, brackets, braces, @ |, comma, colon, note dash, escaped line breaks) in every JSON spelling, kept when Check accepts them. nontrivial = T is not empty (triples) / the prefix is not empty (malformed)")
 	x := &runner{rep: rep, hr: vh.NewRand(salt + 1)}
 	r := vh.NewRand(salt)
 	r2 := vh.NewRand(salt + 2) // leading layout and content-less endings (apart from the main case stream)
 	nSchema, nJSON, nEnum, nRegex, nMal := vh.Pick(1400, 40000), vh.Pick(1400, 60000), vh.Pick(1400, 60000), vh.Pick(700, 20000), vh.Pick(2400, 60000)
+	nDelim := vh.Pick(2500, 60000)
 
 	// ---- schemas: 3 tails per accepted S
 	var kept []c13.SchemaText
-	for i := 0; i < nSchema; i++ {
-		st := c13.GenSchemaText(r.Int63() >> 8)
+	schemaCase := func(r *rand.Rand, st c13.SchemaText, stream string) bool {
 		s := st.Root
 		if s != strings.TrimRight(s, " \t\r\n") || s == "" {
 			rep.AddDiff(vh.Diff{Component: "C14-schema", Input: fmt.Sprintf("%q", s), Impl: "GENERATOR BUG: S has trailing blanks or is empty"})
-			continue
+			return false
 		}
 		base := schemaCheckAST(st, s)
 		if !strings.HasPrefix(base, "OK ") {
-			rep.Stat("schema_not_accepted_skipped")
-			continue
+			rep.Stat(stream + "_not_accepted_skipped")
+			return false
 		}
-		rep.Stat("schema_accepted")
+		rep.Stat(stream + "_accepted")
 		for _, rw := range st.Rewrites {
 			rep.Stat("schema_spelling_" + rw)
 		}
@@ -1055,6 +1059,21 @@ func Run(args []string) {
 			}
 		}
 		x.variants(r2, st, base)
+		return true
+	}
+	for i := 0; i < nSchema; i++ {
+		schemaCase(r, c13.GenSchemaText(r.Int63()>>8), "schema")
+	}
+
+	// ---- schemas whose strings (rule values, notes, examples, keys) carry the delimiters of the notation (delim.go)
+	rd := vh.NewRand(salt + 4)
+	for i := 0; i < nDelim; i++ {
+		st, stats := genDelimSchema(rd.Int63()>>8, i < nDelim*2/5) // the short ones (root scalars) first: short failing inputs first
+		if schemaCase(rd, st, "delim_schema") {
+			for _, s := range stats {
+				rep.Stat("delim_" + s)
+			}
+		}
 	}
 
 	x.shortTails(r)
